@@ -1,7 +1,8 @@
 (** C02 - generated module is closed, well-formed Rust (statements only). *)
-From Coq Require Import List NArith String Bool.
+From Coq Require Import List NArith String Bool Sorted.
 From V Require Import Base.Strings Base.Result Model.Registry Model.Settings Model.Subst
-  Model.TypePath Model.Derives Model.Generate Model.Emit Model.Equal Proofs.GenProofs Proofs.SortDedup.
+  Model.TypePath Model.Derives Model.Generate Model.Emit Model.Equal Model.WellFormed
+  Proofs.GenProofs Proofs.SortDedup Proofs.ClosedProofs.
 Import ListNotations.
 
 (** every emitted item is the IR of an item-eligible registry entry, sitting at that entry's path *)
@@ -12,3 +13,68 @@ Theorem C02_items_are_entries :
                    flatten (s_dreg s) r = Ok flat /\ create_type_ir r s t flat = Ok (Some ir).
 Proof. exact generate_items_come_from_entries. Qed.
 Print Assumptions C02_items_are_entries.
+
+(** every declared generic parameter is listed as unused (and then printed in the PhantomData
+    marker, [C02_phantom_lists_unused]) or occurs in the path of a field of the struct / of some
+    variant; conversely an unused parameter is declared and occurs in no field path.  Any registry.
+    [used_in fs p] := exists f, In f fs /\ In p (parent_params (fi_path f)). *)
+Theorem C02_generics_used :
+  forall r s t flat ir,
+  create_type_ir r s t flat = Ok (Some ir) ->
+  (forall p, In p (ti_params ir) ->
+             In p (ti_unused ir) \/ used_in (kind_fields (ti_kind ir)) p) /\
+  (forall p, In p (ti_unused ir) ->
+             In p (ti_params ir) /\ ~ used_in (kind_fields (ti_kind ir)) p).
+Proof. exact generics_used. Qed.
+Print Assumptions C02_generics_used.
+
+Theorem C02_phantom_lists_unused :
+  forall unused p, In p unused ->
+  exists toks, phantom_tokens unused = Some toks /\ In (tpi_name p) toks.
+Proof. exact phantom_lists_unused. Qed.
+Print Assumptions C02_phantom_lists_unused.
+
+(** items are keyed by path in strictly increasing [Vec<String>] order: no two items of the
+    module tree share a path (hence no two items of one module share a name) *)
+Theorem C02_unique_names :
+  forall r s teq m, generate r s teq = Ok m ->
+  StronglySorted (fun a b => path_compare (fst a) (fst b) = Lt) m /\ NoDup (map fst m).
+Proof. exact generate_unique_names. Qed.
+Print Assumptions C02_unique_names.
+
+(** every [Path] node, anywhere inside a field type of an emitted item, whose tokens start with
+    the root ident is [root :: p] for a path [p] at which an item was emitted.
+    [root_fresh s] (DESIGN 3.2): the root ident is not [":"], the alloc path does not start
+    with it and no substitute target starts with it (user tokens never mention the root). *)
+Theorem C02_paths_resolve :
+  forall r s, root_fresh s -> forall teq m,
+  generate r s teq = Ok m ->
+  forall p0 id ir, items_get m p0 = Some (id, ir) ->
+  forall f, In f (kind_fields (ti_kind ir)) ->
+  forall ptoks params, In (TPath ptoks params) (subpaths (fi_path f)) ->
+  hd_error ptoks = Some (s_root s) ->
+  exists p, ptoks = rel_path (s_root s :: p) /\ items_get m p <> None.
+Proof. exact paths_resolve. Qed.
+Print Assumptions C02_paths_resolve.
+
+(** the same for [resolve_type_path]: a rooted node of any resolved path names a namespaced,
+    non-substituted struct / enum entry of the registry *)
+Theorem C02_resolved_nodes :
+  forall r s, root_fresh s ->
+  forall fuel id is_field parents orig t,
+  resolve_rec r s fuel id is_field parents orig = Ok t ->
+  forall ptoks params, In (TPath ptoks params) (subpaths t) ->
+  hd_error ptoks = Some (s_root s) ->
+  exists p, ptoks = rel_path (s_root s :: p) /\
+            exists id' t', resolve r id' = Some t' /\ t_path t' = p /\
+                           is_composite_or_variant (t_def t') = true /\
+                           subs_get (s_subs s) p = None /\ (exists a b l, p = a :: b :: l).
+Proof. exact resolve_rec_nodes. Qed.
+Print Assumptions C02_resolved_nodes.
+
+(** the child modules emitted for one module are keyed by strictly increasing idents *)
+Theorem C02_unique_modules :
+  forall es : list entry,
+  StronglySorted (fun a b => String.compare a b = Lt) (child_names es) /\ NoDup (child_names es).
+Proof. exact child_names_unique. Qed.
+Print Assumptions C02_unique_modules.
